@@ -51,6 +51,10 @@ def _inner(kind, n):
         return sel([T(col('b'), 'x'), T(col('a'), 'y')], 't')
     if kind == 'expression':
         return sel([T(ast.Add(col('a'), col('b')), 'x'), T(ast.IsNull(col('a')), 'y')], 't')
+    if kind == 'ordered-visible':
+        return sel([T(col('a'), 'x'), T(col('k'), 'y')], 't', order_by=[ast.OrderBy(col('a'), ast.Ordering.DESC)])
+    if kind == 'ordered-hidden-2':
+        return sel([T(col('a'), 'x'), T(col('k'), 'y')], 't', order_by=[ast.OrderBy(col('b'), ast.Ordering.DESC)])
     if kind == 'bare':
         # bare columns: outputs named a, b  (outer refers to them through *)
         return sel([target(col('b')), target(col('a'))], 't')
@@ -75,6 +79,14 @@ def _outer(kind, source, ncols):
         return sel([target(func('count', ast.Asterisk()), 'n'), target(func('count', col('x')), 'c')], from_clause=source)
     if kind == 'order':
         return sel([target(col('x'))], from_clause=source, order_by=[ast.OrderBy(col('x'), ast.Ordering.DESC)])
+    if kind == 'order-ties':
+        # stable sort on a key with ties: rows with equal y keep the order the source delivers them in
+        return sel([target(col('x')), target(col('y'))], from_clause=source, order_by=[ast.OrderBy(col('y'), ast.Ordering.ASC)])
+    if kind == 'first-last':
+        return sel([target(col('y')), target(func('first', col('x')), 'f'), target(func('last', col('x')), 'l')],
+                   from_clause=source, group_by=ast.GroupBy([col('y')], None), order_by=[ast.OrderBy(col('y'), ast.Ordering.DESC)])
+    if kind == 'first-last-plain':
+        return sel([target(func('first', col('x')), 'f'), target(func('last', col('x')), 'l')], from_clause=source)
     if kind == 'expr':
         return sel([target(ast.IsNull(col('x')), 'z')] + ([target(col('y'))] if ncols > 1 else []), from_clause=source)
     raise KeyError(kind)
@@ -122,6 +134,29 @@ def make_from(kind, nrows, quick, thorough):
 for _kind in INNER:
     make_from(_kind, 2, 180, 400)
     make_from(_kind, 3, None if _kind in USES_K else 300, 1500)
+
+
+ORDER_SENSITIVE = ['order-ties', 'first-last', 'first-last-plain']
+
+
+def make_from_order(kind, nrows, quick, thorough):
+    @cond(f'C08.from.order-kept.{kind}.{nrows}rows', quick=quick, thorough=thorough,
+          bounds=f'base table of {nrows} rows (a, b symbolic ints or NULL; k in {{NULL,0,1}} enumerated); inner query "{kind}" '
+                 f'(ORDER BY a visible / hidden key, no LIMIT); order-sensitive outer queries {ORDER_SENSITIVE}: a stable outer '
+                 'sort with ties and first() / last() see the rows in the order the inner query returns them',
+          symbolic='a, b cells', enumerated='k cells, outer query shape (selector)',
+          params={**_params(nrows, True), 'outer': int}, group='C08.from',
+          note='metamorphic: the oracle is the real code run on the materialised inner result')
+    def from_order(outer, **kw):
+        rows = _rows(nrows, kw)
+        conn = connect(t=HTable('t', COLUMNS, rows))
+        label = _compose_check(conn, _inner(kind, 0), pick(ORDER_SENSITIVE, outer))
+        return label or 'ok'
+
+
+for _kind in ('ordered-visible', 'ordered-hidden-2'):
+    make_from_order(_kind, 2, 240, 600)
+    make_from_order(_kind, 3, None, 1500)
 
 
 TYPED_INNERS = [
@@ -232,6 +267,50 @@ def make_in(form, negated):
 for _form in ('target', 'where'):
     for _neg in (False, True):
         make_in(_form, _neg)
+
+
+def make_in_nested(outer_form):
+    @cond(f'C08.in.nested.{outer_form}', quick=500, thorough=1200,
+          bounds='tables t (a, b) and u (c, d) of <=2 rows, w (e) of <=1 row; a, d, e symbolic ints or NULL, b, c symbolic ints; '
+                 'depth 3 over three different tables: a [NOT] IN (SELECT c FROM #u WHERE d [NOT] IN (SELECT e FROM #w)) '
+                 + {'where': 'as the first WHERE conjunct of SELECT a, b FROM #t, followed by AND b IS NOT NULL and ORDER BY b '
+                             '(the statement keeps compiling against its own table after the nested SELECTs)',
+                    'target': 'as a target of SELECT a, <test> AS r, b FROM #t ORDER BY b',
+                    'from': 'in the WHERE clause of SELECT x, y FROM (SELECT a AS x, b AS y FROM #t) ... ORDER BY y'}[outer_form],
+          symbolic='all cells, the three row counts, both negations', group='C08.in')
+    def in_nested(trows: List[Tuple[Optional[int], int]], urows: List[Tuple[int, Optional[int]]],
+                  wrows: List[Tuple[Optional[int]]], neg1: bool, neg2: bool) -> str:
+        assume(len(trows) <= 2 and len(urows) <= 2 and len(wrows) <= 1)
+        tcols, wcols = [('a', int), ('b', int)], [('e', int)]
+        conn = connect(t=HTable('t', tcols, list(trows)), u=HTable('u', UCOLS, list(urows)), w=HTable('w', wcols, list(wrows)))
+        innermost = sel([target(col('e'))], 'w')
+        middle = sel([target(col('c'))], 'u', where=(ast.NotIn if neg2 else ast.In)(col('d'), innermost))
+        if outer_form == 'from':
+            base = sel([target(col('a'), 'x'), target(col('b'), 'y')], 't')
+            test = (ast.NotIn if neg1 else ast.In)(col('x'), middle)
+            stmt = sel([target(col('x')), target(col('y'))], from_clause=base,
+                       where=ast.And([test, ast.IsNotNull(col('y'))]), order_by=[ast.OrderBy(col('y'), ast.Ordering.ASC)])
+        else:
+            test = (ast.NotIn if neg1 else ast.In)(col('a'), middle)
+            order = [ast.OrderBy(col('b'), ast.Ordering.ASC)]
+            if outer_form == 'where':
+                stmt = sel([target(col('a')), target(col('b'))], 't', where=ast.And([test, ast.IsNotNull(col('b'))]),
+                           order_by=order)
+            else:
+                stmt = sel([target(col('a')), target(test, 'r'), target(col('b'))], 't', order_by=order)
+        text = native(print_select, stmt)
+        cur = conn.execute(parse(text))
+        got = cur.fetchall()
+        want = refsem.Ref({'t': (tcols, list(trows)), 'u': (UCOLS, list(urows)), 'w': (wcols, list(wrows))}).select(stmt)
+        if [c.name for c in cur.description] != want.names:
+            return 'names'
+        if not same_rows(got, want.rows):
+            return 'nested-membership'
+        return 'ok'
+
+
+for _form in ('where', 'target', 'from'):
+    make_in_nested(_form)
 
 
 @cond('C08.in.cols', quick=30, bounds='x IN (SELECT c, d FROM #u): two-column subquery must be rejected',
